@@ -185,7 +185,7 @@ var def = pbt.Def[Case]{Name: "pause-resume-metamorphic", Gen: gen, Run: judge, 
 
 func TestProp(t *testing.T) {
 	outerT = t
-	pbt.Check(t, run, def, 5000, 600000)
+	pbt.Check(t, run, def, 5000, 250000)
 }
 
 func TestReplay(t *testing.T) {
